@@ -23,6 +23,19 @@ def stepC02 (fields : List String) : Option String :=
       -- do the hypotheses of C02_frame hold for this framed line?
       pure (encodeBool (Spec.WFFramed Generated.endRe (← tagOf which) (← decodeText pre) (← decodeText blanks)
         (← decodeText v) (← decodeText ws) (← decodeText trail) (← decodeText le)))
+  | ["c02chyp", key, yform, h, pre, trail] => do
+      -- do the hypotheses of C02_copyright_exact_partial hold for this notice in this line?
+      let h ← decodeText h
+      let kv ← Generated.copyrightPrefixes.find? (·.1 == key)
+      let shape ← Spec.prefixShapes.find? (·.1 == kv.2)
+      let y : Spec.YearForm ←
+        match yform.splitOn "/" with
+        | ["none"] => some Spec.YearForm.none
+        | ["single", a] => do pure (Spec.YearForm.single (← decodeText a))
+        | ["range", a, s1, s2, b] => do pure (Spec.YearForm.range (← decodeText a) (s1 == "1") (s2 == "1") (← decodeText b))
+        | _ => none
+      pure (encodeBool (Spec.WFNotice Generated.endRe shape y h (← decodeText pre) (← decodeText trail)) ++ "|" ++
+        encodeText (Spec.builtLine shape.1 y h))
   | ["decode", bs] => do pure (encodeText (decodedText (← decodeBytes bs)))
   | ["windowlen", bs] => do pure (toString (window (← decodeBytes bs)).length)
   | ["infofile", bs, bad] => do
